@@ -1,5 +1,7 @@
 #!/bin/bash
 # MANIFEST.setup_cmd: build the Lean model, proofs and driver from files on disk (offline).
 set -e
+# the generated tables always describe the tree under test, whatever is committed
+"$(dirname "$0")/tools/regen_tables.sh"
 cd "$(dirname "$0")/lean"
 lake build PulserModel Proofs Properties pmdriver pm_layout pm_geom pm_ham pm_meas pm_wave pm_mod pm_codec pm_switch
